@@ -127,8 +127,11 @@ def fragment_family(rep, binp, cor):
     import os
     inp = os.path.join(vlib.scratch(), "c04_frag.ndjson")
     outp = os.path.join(vlib.scratch(), "c04_frag.out")
-    vlib.write_ndjson(inp, [{"id": i, "text": t, "fragment": True, "want": ["tokens", "tree"]} for i, t in enumerate(frags)])
+    vlib.write_ndjson(inp, [{"id": i, "text": t, "fragment": True, "want": ["tokens", "tree", "fragfile"]} for i, t in enumerate(frags)])
     results, _ = vlib.run_cases_resilient(binp, "load-op", inp, outp, len(frags))
+    for i, r in enumerate(results):
+        if r.get("fragfile_same") is False:
+            rep.violation(f"fragment:file:{fmeta[i].get('e')}", "load_fragment_file of a file gives another result than load_fragment of its content", {"kind": "fragment", "case": fmeta[i], "text": frags[i]})
     events = []
     for r in results:
         if r.get("hang") or "panic" in r or "tokens" not in r:
